@@ -1,0 +1,451 @@
+//! `keyupd`: key updates in the receive pipeline (C04; RFC 9001 section 6) on a real established client
+//! `Connection`: `handle_packet` -> `decrypt_packet` -> `packet_crypto::decrypt_packet_body` -> duplicate
+//! filter -> `on_packet_authenticated` -> `process_decrypted_packet`, `update_keys`, `force_key_update`,
+//! `set_key_discard_timer`, `Timer::KeyDiscard`, and the `update_unacked` reset in `poll_transmit`.
+//!
+//! The connection's crypto session is a harness fake: the 1-RTT packet keys of generation g (g = 0 the keys
+//! installed by the handshake through the real `upgrade_crypto`, g+1 the result of the g-th call of
+//! `Session::next_1rtt_keys`) "authenticate" a packet iff its last 8 bytes are g (big endian) and strip them.
+//! A request can therefore present a genuine packet of any generation, a replay, or a forgery (tag 2^64-1).
+//! Header protection is the identity. Every packet carries one PING frame.
+//!
+//! Requests (first token `keyupd` already removed); time is the executor's clock (starts at 0 us):
+//!   env <pto_us> <limit> <phase>      announce PTO(Data) in us, the integrity limit of the keys and the number of
+//!                                     packets per key phase (confidentiality limit - KEY_UPDATE_MARGIN); the executor
+//!                                     checks them against its own values    -> ok | err env <pto> <limit> <phase>
+//!   rx <pn> <bit> <gen|forged> [rsv]  a short-header packet, packet number pn (< 2^30, sent in 4 bytes), key phase
+//!                                     bit, sealed with the keys of generation gen (< 2^32) or forged; `rsv` = the
+//!                                     reserved header bits are set   -> o:<opened 0|1> p:<PING frames processed>
+//!   update                            Connection::force_key_update                 -> ok
+//!   send                              Connection::ping + poll_transmit             -> sent <phase bit> <gen of the tag> | none | closed
+//!   tick <us>                         advance the clock (<= 10^9)                   -> ok
+//!   timeout                           Connection::handle_timeout(now)              -> ok
+//!   view                                                                            -> ok
+//! Every response ends with
+//!   ` | ph=<key_phase> cur=<gen> prev=<gen>:<end_packet|->:<update_unacked>|- next=<gen> swk=<sent_with_keys> rx=<rx_packet>
+//!      authed=<total_authed_packets> fail=<authentication_failures> dd=<dedup next>:<window, decimal>
+//!      kd=<KeyDiscard deadline us|-> st=<est|closed|draining|drained> err=<transport error code|->`
+//! where the generation of an installed key is found by trial (which tag it accepts).
+use std::any::Any;
+use std::sync::atomic::{AtomicU64, Ordering};
+use std::sync::Arc;
+
+use bytes::{Bytes, BytesMut};
+
+use super::super::{Connection, ConnectionError, State};
+use super::{num, Comp, BAD};
+use crate::congestion::{Controller, ControllerFactory};
+use crate::connection::spaces::PacketNumberFilter;
+use crate::connection::timer::Timer;
+use crate::crypto::{
+    self, CryptoError, ExportKeyingMaterialError, HeaderKey, KeyPair, Keys, PacketKey, Session,
+};
+use crate::packet::{Header, Packet, PacketNumber, SpaceId};
+use crate::transport_parameters::TransportParameters;
+use crate::{
+    ClientConfig, ConnectError, ConnectionId, Duration, Endpoint, EndpointConfig, Instant, Side,
+    TransportConfig, TransportError,
+};
+
+const TAG: usize = 8;
+const FORGED: u64 = u64::MAX;
+/// integrity limit of the fake keys (small, so that the AEAD_LIMIT_REACHED arm is reachable)
+const LIMIT: u64 = 12;
+/// packets per key phase before `PacketBuilder::new` starts a routine key update: the fake keys announce the
+/// confidentiality limit KEY_UPDATE_MARGIN + PHASE
+const PHASE: u64 = 6;
+const MAX_PN: u64 = 1 << 30;
+const MAX_GEN: u64 = 1 << 32;
+
+struct Plain;
+
+impl HeaderKey for Plain {
+    fn decrypt(&self, _pn_offset: usize, _packet: &mut [u8]) {}
+    fn encrypt(&self, _pn_offset: usize, _packet: &mut [u8]) {}
+    fn sample_size(&self) -> usize {
+        0
+    }
+}
+
+impl PacketKey for Plain {
+    fn encrypt(&self, _packet: u64, _buf: &mut [u8], _header_len: usize) {}
+    fn decrypt(&self, _packet: u64, _header: &[u8], _payload: &mut BytesMut) -> Result<(), CryptoError> {
+        Ok(())
+    }
+    fn tag_len(&self) -> usize {
+        0
+    }
+    fn confidentiality_limit(&self) -> u64 {
+        u64::MAX
+    }
+    fn integrity_limit(&self) -> u64 {
+        u64::MAX
+    }
+}
+
+/// 1-RTT packet key of one generation
+struct GenKey {
+    gen: u64,
+    opened: Arc<AtomicU64>,
+}
+
+impl PacketKey for GenKey {
+    fn encrypt(&self, _packet: u64, buf: &mut [u8], _header_len: usize) {
+        let n = buf.len();
+        if n >= TAG {
+            buf[n - TAG..].copy_from_slice(&self.gen.to_be_bytes());
+        }
+    }
+    fn decrypt(&self, _packet: u64, _header: &[u8], payload: &mut BytesMut) -> Result<(), CryptoError> {
+        let n = payload.len();
+        if n < TAG || payload[n - TAG..] != self.gen.to_be_bytes() {
+            return Err(CryptoError);
+        }
+        payload.truncate(n - TAG);
+        self.opened.fetch_add(1, Ordering::Relaxed);
+        Ok(())
+    }
+    fn tag_len(&self) -> usize {
+        TAG
+    }
+    fn confidentiality_limit(&self) -> u64 {
+        super::super::KEY_UPDATE_MARGIN + PHASE
+    }
+    fn integrity_limit(&self) -> u64 {
+        LIMIT
+    }
+}
+
+fn pair(gen: u64, opened: &Arc<AtomicU64>) -> KeyPair<Box<dyn PacketKey>> {
+    KeyPair {
+        local: Box::new(GenKey { gen, opened: opened.clone() }),
+        remote: Box::new(GenKey { gen, opened: opened.clone() }),
+    }
+}
+
+fn plain_keys(packet: KeyPair<Box<dyn PacketKey>>) -> Keys {
+    Keys {
+        header: KeyPair { local: Box::new(Plain), remote: Box::new(Plain) },
+        packet,
+    }
+}
+
+/// The fake TLS session: hands out Handshake keys, then the 1-RTT keys of generation 0 (both through the real
+/// `write_crypto` / `upgrade_crypto` when the connection is created), then generation 1, 2, ...
+struct GenSession {
+    stage: u8,
+    next_gen: Arc<AtomicU64>,
+    opened: Arc<AtomicU64>,
+}
+
+impl Session for GenSession {
+    fn initial_keys(&self, _dst_cid: ConnectionId, _side: Side) -> Keys {
+        plain_keys(KeyPair { local: Box::new(Plain), remote: Box::new(Plain) })
+    }
+    fn handshake_data(&self) -> Option<Box<dyn Any>> {
+        None
+    }
+    fn peer_identity(&self) -> Option<Box<dyn Any>> {
+        None
+    }
+    fn early_crypto(&self) -> Option<(Box<dyn HeaderKey>, Box<dyn PacketKey>)> {
+        None
+    }
+    fn early_data_accepted(&self) -> Option<bool> {
+        None
+    }
+    fn is_handshaking(&self) -> bool {
+        false
+    }
+    fn read_handshake(&mut self, _buf: &[u8]) -> Result<bool, TransportError> {
+        Ok(false)
+    }
+    fn transport_parameters(&self) -> Result<Option<TransportParameters>, TransportError> {
+        Ok(None)
+    }
+    fn write_handshake(&mut self, _buf: &mut Vec<u8>) -> Option<Keys> {
+        self.stage += 1;
+        match self.stage {
+            1 => Some(plain_keys(KeyPair { local: Box::new(Plain), remote: Box::new(Plain) })),
+            2 => {
+                let g = self.next_gen.fetch_add(1, Ordering::Relaxed);
+                Some(plain_keys(pair(g, &self.opened)))
+            }
+            _ => None,
+        }
+    }
+    fn next_1rtt_keys(&mut self) -> Option<KeyPair<Box<dyn PacketKey>>> {
+        if self.stage < 2 {
+            return None;
+        }
+        let g = self.next_gen.fetch_add(1, Ordering::Relaxed);
+        Some(pair(g, &self.opened))
+    }
+    fn is_valid_retry(&self, _orig_dst_cid: ConnectionId, _header: &[u8], _payload: &[u8]) -> bool {
+        false
+    }
+    fn export_keying_material(
+        &self,
+        _output: &mut [u8],
+        _label: &[u8],
+        _context: &[u8],
+    ) -> Result<(), ExportKeyingMaterialError> {
+        Err(ExportKeyingMaterialError)
+    }
+}
+
+struct GenClient {
+    next_gen: Arc<AtomicU64>,
+    opened: Arc<AtomicU64>,
+}
+
+impl crypto::ClientConfig for GenClient {
+    fn start_session(
+        self: Arc<Self>,
+        _version: u32,
+        _server_name: &str,
+        _params: &TransportParameters,
+    ) -> Result<Box<dyn Session>, ConnectError> {
+        Ok(Box::new(GenSession {
+            stage: 0,
+            next_gen: self.next_gen.clone(),
+            opened: self.opened.clone(),
+        }))
+    }
+}
+
+/// A congestion controller that never limits (the window is so large that pacing is disabled as well):
+/// `send` then depends on nothing but the request sequence.
+#[derive(Clone)]
+struct Unlimited;
+
+impl Controller for Unlimited {
+    fn on_congestion_event(&mut self, _now: Instant, _sent: Instant, _persistent: bool, _is_ecn: bool, _lost: u64) {}
+    fn on_mtu_update(&mut self, _new_mtu: u16) {}
+    fn window(&self) -> u64 {
+        1 << 40
+    }
+    fn clone_box(&self) -> Box<dyn Controller> {
+        Box::new(self.clone())
+    }
+    fn initial_window(&self) -> u64 {
+        1 << 40
+    }
+    fn into_any(self: Box<Self>) -> Box<dyn Any> {
+        self
+    }
+}
+
+impl ControllerFactory for Unlimited {
+    fn build(self: Arc<Self>, _now: Instant, _current_mtu: u16) -> Box<dyn Controller> {
+        Box::new(Self)
+    }
+}
+
+pub(super) struct KeyUpdC {
+    conn: Connection,
+    base: Instant,
+    t_us: u64,
+    next_gen: Arc<AtomicU64>,
+    opened: Arc<AtomicU64>,
+}
+
+impl KeyUpdC {
+    pub(super) fn new() -> Self {
+        let next_gen = Arc::new(AtomicU64::new(0));
+        let opened = Arc::new(AtomicU64::new(0));
+        let base = Instant::now();
+        let mut endpoint = Endpoint::new(Arc::new(EndpointConfig::default()), None, true);
+        let mut transport = TransportConfig::default();
+        transport
+            .max_idle_timeout(None)
+            .initial_rtt(Duration::from_millis(100))
+            .mtu_discovery_config(None)
+            .congestion_controller_factory(Arc::new(Unlimited));
+        let mut client = ClientConfig::new(Arc::new(GenClient {
+            next_gen: next_gen.clone(),
+            opened: opened.clone(),
+        }));
+        client.transport_config(Arc::new(transport));
+        // Connection::new runs write_crypto: the fake session hands out Handshake and 1-RTT keys, which the real
+        // upgrade_crypto installs (spaces[Data].crypto = generation 0, next_crypto = generation 1)
+        let (_, mut conn) = endpoint
+            .connect(base, client, "127.0.0.1:4433".parse().unwrap(), "localhost")
+            .unwrap();
+        // a client whose handshake is complete and confirmed
+        conn.state = State::Established;
+        // no randomly skipped packet numbers (each would count twice in `sent_with_keys`), and a known size of the
+        // first key phase (the real one is drawn from 10..1000)
+        conn.packet_number_filter = PacketNumberFilter::verif_disabled();
+        conn.key_phase_size = PHASE;
+        conn.discard_space(base, SpaceId::Initial);
+        conn.discard_space(base, SpaceId::Handshake);
+        Self { conn, base, t_us: 0, next_gen, opened }
+    }
+
+    fn now(&self) -> Instant {
+        self.base + Duration::from_micros(self.t_us)
+    }
+
+    /// generation of an installed key = the tag it accepts
+    fn gen_of(&self, key: &dyn PacketKey) -> String {
+        let before = self.opened.load(Ordering::Relaxed);
+        let mut out = "?".to_string();
+        for g in 0..=self.next_gen.load(Ordering::Relaxed) {
+            let mut p = BytesMut::new();
+            p.extend_from_slice(&[0x01]);
+            p.extend_from_slice(&g.to_be_bytes());
+            if key.decrypt(0, &[], &mut p).is_ok() {
+                out = g.to_string();
+                break;
+            }
+        }
+        self.opened.store(before, Ordering::Relaxed);
+        out
+    }
+
+    fn view(&self, r: &str) -> String {
+        let c = &self.conn;
+        let data = &c.spaces[SpaceId::Data];
+        let cur = match data.crypto.as_ref() {
+            Some(k) => self.gen_of(&*k.packet.remote),
+            None => "-".into(),
+        };
+        let prev = match c.prev_crypto.as_ref() {
+            Some(p) => format!(
+                "{}:{}:{}",
+                self.gen_of(&*p.crypto.remote),
+                p.end_packet.map_or("-".to_string(), |(n, _)| n.to_string()),
+                p.update_unacked as u8
+            ),
+            None => "-".into(),
+        };
+        let next = match c.next_crypto.as_ref() {
+            Some(k) => self.gen_of(&*k.remote),
+            None => "-".into(),
+        };
+        let (window, dnext) = data.dedup.verif_state();
+        let kd = match c.timers.get(Timer::KeyDiscard) {
+            Some(t) => t.saturating_duration_since(self.base).as_micros().to_string(),
+            None => "-".into(),
+        };
+        let st = match c.state {
+            State::Handshake(_) => "handshake",
+            State::Established => "est",
+            State::Closed(_) => "closed",
+            State::Draining => "draining",
+            State::Drained => "drained",
+        };
+        let err = match c.error.as_ref() {
+            Some(ConnectionError::TransportError(e)) => format!("{:?}", e.code),
+            Some(_) => "other".into(),
+            None => "-".into(),
+        };
+        format!(
+            "{r} | ph={} cur={cur} prev={prev} next={next} swk={} rx={} authed={} fail={} dd={dnext}:{window} kd={kd} st={st} err={err}",
+            c.key_phase as u8, data.sent_with_keys, data.rx_packet, c.total_authed_packets, c.authentication_failures,
+        )
+    }
+}
+
+impl Comp for KeyUpdC {
+    fn exec(&mut self, w: &[&str]) -> String {
+        match w {
+            ["env", pto, limit, phase] => {
+                let (Some(pto), Some(limit), Some(phase)) = (num(pto), num(limit), num(phase)) else {
+                    return BAD.into();
+                };
+                let mine = self.conn.pto(SpaceId::Data).as_micros() as u64;
+                if mine == pto && limit == LIMIT && phase == PHASE {
+                    self.view("ok")
+                } else {
+                    self.view(&format!("err env {mine} {LIMIT} {PHASE}"))
+                }
+            }
+            ["rx", pn, bit, gen, rest @ ..] => {
+                let rsv = match rest {
+                    [] => false,
+                    ["rsv"] => true,
+                    _ => return BAD.into(),
+                };
+                let Some(pn) = num(pn).filter(|&x| x < MAX_PN) else {
+                    return BAD.into();
+                };
+                let bit = match *bit {
+                    "0" => false,
+                    "1" => true,
+                    _ => return BAD.into(),
+                };
+                let tag = if *gen == "forged" {
+                    FORGED
+                } else {
+                    match num(gen).filter(|&g| g < MAX_GEN) {
+                        Some(g) => g,
+                        None => return BAD.into(),
+                    }
+                };
+                let mut payload = BytesMut::new();
+                payload.extend_from_slice(&[0x01]); // PING
+                payload.extend_from_slice(&tag.to_be_bytes());
+                let first = 0x40u8 | if rsv { 0x18 } else { 0 } | if bit { 0x04 } else { 0 } | 0x03;
+                let packet = Packet {
+                    header: Header::Short {
+                        spin: false,
+                        key_phase: bit,
+                        dst_cid: ConnectionId::new(&[]),
+                        number: PacketNumber::U32(pn as u32),
+                    },
+                    header_data: Bytes::copy_from_slice(&[first]),
+                    payload,
+                };
+                let opened = self.opened.load(Ordering::Relaxed);
+                let pings = self.conn.stats.frame_rx.ping;
+                let now = self.now();
+                let remote = self.conn.path.remote;
+                self.conn.handle_packet(now, remote, None, Some(packet), false);
+                let r = format!(
+                    "o:{} p:{}",
+                    self.opened.load(Ordering::Relaxed) - opened,
+                    self.conn.stats.frame_rx.ping - pings
+                );
+                self.view(&r)
+            }
+            ["update"] => {
+                self.conn.force_key_update();
+                self.view("ok")
+            }
+            ["send"] => {
+                if !self.conn.state.is_established() {
+                    return self.view("closed");
+                }
+                self.conn.ping();
+                let mut buf = Vec::new();
+                let now = self.now();
+                let r = match self.conn.poll_transmit(now, 1, &mut buf) {
+                    Some(t) if t.size >= 1 + TAG && buf.len() >= t.size => {
+                        let mut tag = [0u8; TAG];
+                        tag.copy_from_slice(&buf[t.size - TAG..t.size]);
+                        format!("sent {} {}", (buf[0] >> 2) & 1, u64::from_be_bytes(tag))
+                    }
+                    Some(_) => "sent ? ?".into(),
+                    None => "none".into(),
+                };
+                self.view(&r)
+            }
+            ["tick", us] => {
+                let Some(us) = num(us).filter(|&x| x <= 1_000_000_000) else {
+                    return BAD.into();
+                };
+                self.t_us += us;
+                self.view("ok")
+            }
+            ["timeout"] => {
+                let now = self.now();
+                self.conn.handle_timeout(now);
+                self.view("ok")
+            }
+            ["view"] => self.view("ok"),
+            _ => BAD.into(),
+        }
+    }
+}
